@@ -263,13 +263,6 @@ def snapshot(fs: Any, via: Any = None, data: bool = True, include_fs: bool = Tru
                 "where database_name not in ('system','temp') and schema_name not in ('pg_catalog')"
             ).fetchall()
         )
-        tables = sorted(
-            (r[0], r[1], r[2])
-            for r in c.execute(
-                "select database_name, schema_name, table_name from duckdb_tables() "
-                "where database_name not in ('system')"
-            ).fetchall()
-        )
         views = sorted(
             (r[0], r[1], r[2])
             for r in c.execute(
@@ -277,21 +270,30 @@ def snapshot(fs: Any, via: Any = None, data: bool = True, include_fs: bool = Tru
                 "where not internal and database_name not in ('system') and schema_name <> 'information_schema'"
             ).fetchall()
         )
+        # one pass over duckdb_columns() gives tables and their columns (duckdb_tables() is several times slower)
         cols: dict[str, list] = {}
         rows: dict[str, dict] = {}
+        tlist: list[tuple] = []
+        vset = set(views)
+        for db, sc, t, cn, dt in c.execute(
+            "select database_name, schema_name, table_name, column_name, data_type from duckdb_columns() "
+            "where not internal and database_name not in ('system') order by database_name, schema_name, table_name, column_index"
+        ).fetchall():
+            if (db, sc, t) in vset or (sc == "information_schema" and not t.startswith("_fs_")):
+                continue
+            if t.startswith("_fs_") and sc == "information_schema" and t == "_fs_columns_snowflake":
+                continue
+            key = (db, sc, t)
+            if not tlist or tlist[-1] != key:
+                tlist.append(key)
+            if include_fs or not t.startswith("_fs_"):
+                cols.setdefault(f"{db}.{sc}.{t}", []).append((cn, dt))
+        tables = sorted(tlist)
         for db, sc, t in tables:
             is_fs = t.startswith("_fs_")
             if is_fs and not include_fs:
                 continue
             fq = f'"{db}"."{sc}"."{t}"'
-            cols[f"{db}.{sc}.{t}"] = [
-                (r[0], r[1])
-                for r in c.execute(
-                    "select column_name, data_type from duckdb_columns() where database_name=? and schema_name=? "
-                    "and table_name=? order by column_index",
-                    [db, sc, t],
-                ).fetchall()
-            ]
             if data:
                 try:
                     rs = c.execute(f"select * from {fq}").fetchall()
